@@ -32,9 +32,11 @@ Emit(rec) == PrintT(<<"REPLAY", ToJson(rec)>>)
 Init ==
     /\ src \in Codec /\ target \in Codec \cup {"keep"} /\ force \in {0, 1}
     /\ fmt \in Formats /\ tset \in TileSets
-    /\ Expressible(fmt, DeclaredOut(src, target))
     /\ ExpressibleSet(fmt, DeclaredOut(src, target), tset)
-    /\ Emit([k |-> "recomp", src_tc |-> src, target |-> target, force |-> force, fmt |-> fmt, tiles |-> tset, classes |-> ClassJson])
+    \* what the target format cannot express (vector tiles in MBTiles other than gzip) has to be REFUSED -- or, if a writer takes
+    \* it on, come out right all the same: such cases are emitted with may_refuse = 1
+    /\ Emit([k |-> "recomp", src_tc |-> src, target |-> target, force |-> force, fmt |-> fmt, tiles |-> tset, classes |-> ClassJson,
+             may_refuse |-> IF Expressible(fmt, DeclaredOut(src, target)) THEN 0 ELSE 1])
 Next == UNCHANGED vars
 Spec == Init /\ [][Next]_vars
 InvTrue == TRUE
